@@ -11,3 +11,5 @@ import Aiorpcx.C01.Props
 import Aiorpcx.C02.Props
 import Aiorpcx.C18.Props
 import Aiorpcx.C03.Props
+import Aiorpcx.C11.Deadline
+import Aiorpcx.C11.Early
